@@ -116,11 +116,12 @@ type world struct {
 	store   storage.StateStorer
 	rec     *recCS
 	// model
-	last    map[common.Address]*big.Int                  // highest accepted payout per stated issuer
-	settled map[common.Address]*big.Int                  // per registered peer (by chain address): ReceivedSettlements
-	sumCred map[common.Address]*big.Int                  // sum of amounts the store credited per issuer
-	sent    map[common.Address][]*chequePkg.SignedCheque // cheques of kind valid already delivered
-	names   map[common.Address]string
+	last      map[common.Address]*big.Int                  // highest accepted payout per stated issuer
+	settled   map[common.Address]*big.Int                  // per registered peer (by chain address): ReceivedSettlements
+	chainBase map[common.Address]*big.Int                  // amount the issuer's earlier cheques cashed on chain (chain ahead of the store)
+	sumCred   map[common.Address]*big.Int                  // sum of amounts the store credited per issuer
+	sent      map[common.Address][]*chequePkg.SignedCheque // cheques of kind valid already delivered
+	names     map[common.Address]string
 	// direct: cheques are handed to the cheque store itself (no delivering peer), so only
 	// the recipient, signature and monotonicity clauses apply
 	direct bool
@@ -131,6 +132,17 @@ func (w *world) lastOf(a common.Address) *big.Int {
 		return v
 	}
 	return big.NewInt(0)
+}
+
+// baseOf is the amount above which a new valid payout is generated: the last accepted
+// cheque of the issuer or, for issuers whose earlier cheques were cashed on chain before
+// this node lost its cheque store, the amount cashed on chain.
+func (w *world) baseOf(a common.Address) *big.Int {
+	b := w.lastOf(a)
+	if c, ok := w.chainBase[a]; ok && c.Cmp(b) > 0 {
+		return c
+	}
+	return b
 }
 
 func newWorld(t *testing.T, rng *rand.Rand, nreg int) *world {
@@ -152,6 +164,20 @@ func newWorld(t *testing.T, rng *rand.Rand, nreg int) *world {
 	}
 	w.store = st
 	chain := trafficx.NewChain()
+	// one peer in three has cashed earlier cheques on chain that this node no longer has in
+	// its cheque store (lost / re-installed state store): the chain is ahead of the store
+	w.chainBase = map[common.Address]*big.Int{}
+	var ahead []common.Address
+	for _, p := range w.reg {
+		if rng.Intn(3) == 0 {
+			c0 := randAmount(rng)
+			chain.SetTrans(p.Addr, w.self.Addr, c0)
+			w.chainBase[p.Addr] = c0
+			w.settled[p.Addr] = new(big.Int).Set(c0)
+			ahead = append(ahead, p.Addr)
+		}
+	}
+	chain.SetLists(ahead, ahead)
 	w.node = trafficx.NewNode(w.self, st, chain, trafficx.Options{WrapCS: func(cs chequePkg.ChequeStore) chequePkg.ChequeStore {
 		w.rec = &recCS{ChequeStore: cs}
 		return w.rec
@@ -195,7 +221,7 @@ func (w *world) gen(t *testing.T, rng *rand.Rand, kind int) *op {
 		RecipientIsUs: true, SigValid: true, PeerKnown: true, PeerIsIssuer: true}
 	signer := x
 	recipient := w.self.Addr
-	payout := new(big.Int).Add(w.lastOf(x.Addr), randAmount(rng))
+	payout := new(big.Int).Add(w.baseOf(x.Addr), randAmount(rng))
 	var err error
 	switch kind {
 	case kValid:
@@ -251,12 +277,12 @@ func (w *world) gen(t *testing.T, rng *rand.Rand, kind int) *op {
 		}
 		o.issuer = signer.Addr
 		o.PeerIsIssuer = false
-		payout = new(big.Int).Add(w.lastOf(signer.Addr), randAmount(rng))
+		payout = new(big.Int).Add(w.baseOf(signer.Addr), randAmount(rng))
 	case kForeignIssuer:
 		signer = w.foreign
 		o.issuer = signer.Addr
 		o.PeerIsIssuer = false
-		payout = new(big.Int).Add(w.lastOf(signer.Addr), randAmount(rng))
+		payout = new(big.Int).Add(w.baseOf(signer.Addr), randAmount(rng))
 	case kUnregisteredDeliverer:
 		o.deliverer = w.unreg
 		o.PeerKnown = false
@@ -264,7 +290,7 @@ func (w *world) gen(t *testing.T, rng *rand.Rand, kind int) *op {
 		if rng.Intn(2) == 0 {
 			signer = w.unreg
 			o.issuer = signer.Addr
-			payout = new(big.Int).Add(w.lastOf(signer.Addr), randAmount(rng))
+			payout = new(big.Int).Add(w.baseOf(signer.Addr), randAmount(rng))
 			o.Note = "own cheque of the unregistered peer"
 		} else {
 			o.Note = "a registered peer's fresh cheque relayed by the unregistered peer"
